@@ -11,15 +11,16 @@ RULE = ("random histories (<=25 operations) over a world of 3 contents sets (con
         "five types drawn from a small component alphabet so that keys collide, every path given in a random unnormalised "
         "spelling: '//', '/./', trailing '/', 'x/../'); operations: add, update, remove/del/discard/in/[] with entry and "
         "string arguments, union/intersection/difference/symmetric_difference (+_update), issubset/issuperset/isdisjoint "
-        "with another contents set, change_offset/insert_offset, add_missing_directories. After every operation the "
+        "with another contents set or an iterator/generator of entries (with duplicate and respelled paths), change_offset/insert_offset, add_missing_directories. After every operation the "
         "returned value/exception and the full content (key -> type, identity, symlink target) of every set in the world "
         "are compared with a dict model. A history is non-trivial when at least one judged operation hit an existing key "
         "through a non-canonical spelling, combined two sets with partially overlapping keys, relocated a non-empty set, "
         "or completed a directory chain of depth >= 2; distinct = distinct (initial sets, operation list).")
 ASSUMPTIONS = [
     "paths are absolute; spellings starting with exactly two slashes (implementation-defined in POSIX) are not generated",
-    "binary set operations are judged only with another contents set as argument; plain lists/iterators are executed but "
-    "recorded as unspecified",
+    "binary set operations are judged with another contents set and with a one-shot iterator/generator of entries (meaning "
+    "the set of its normalised paths, duplicates and respelled duplicates included; the upstream tests drive iter(set)); "
+    "plain lists/tuples of entries or of path strings are executed but recorded as unspecified",
     "which operand's entry survives union/intersection is not prescribed; any operand's entry is accepted",
     "add/update are last-writer-wins on the path key (map assignment)",
     "mutating operations are only issued on mutable sets; aliasing (s.op_update(s)) is not 'another set' and is skipped",
@@ -33,7 +34,9 @@ REQUIRED_COUNTERS = ("op:remove", "op:discard", "op:getitem", "op:contains", "op
                      "op:difference", "op:symmetric_difference", "op:difference_update", "op:intersection_update",
                      "op:symmetric_difference_update", "op:issubset", "op:issuperset", "op:isdisjoint",
                      "op:change_offset", "op:insert_offset", "op:add_missing", "relocated_entries", "dirs_completed",
-                     "hit_via_noncanonical_spelling")
+                     "hit_via_noncanonical_spelling", "iterator_arg_with_duplicate_keys",
+                     "iterator_arg_with_duplicate_keys:symmetric_difference",
+                     "iterator_arg_with_duplicate_keys:symmetric_difference_update")
 
 NSETS = 3
 COMPONENTS = ["a", "b", "c", "usr", "lib", "x y", "été", ".hid", "a.b", "..."]
@@ -297,11 +300,28 @@ class World:
         elif name in PURE_BIN or name in UPD_BIN or name in PRED_BIN:
             if "olist" in op:
                 return self._unspecified_binary(op)
-            o = op["o"]
-            other, om = self.impl[o], self.model[o]
-            if name in UPD_BIN and o == t:
-                self.count("skipped:aliasing")
-                return "skipped"
+            extra_vals = {}
+            if "oiter" in op:
+                # a one-shot iterator / generator of entries stands for "the set of its normalised paths"
+                es = op["oiter"]["es"]
+                objs = [make_entry(self.fs, e) for e in es]
+                other = iter(objs) if op["oiter"]["form"] == "iter" else (x for x in objs)
+                om = ref.PathMap()
+                for e in es:
+                    k = ref.norm(e["p"])
+                    om.put(k, model_val(e))
+                    extra_vals.setdefault(k, []).append(model_val(e))
+                self.count("iterator_arg")
+                if len(om.d) < len(es):
+                    self.boundary += 1
+                    self.count("iterator_arg_with_duplicate_keys")
+                    self.count("iterator_arg_with_duplicate_keys:" + name)
+            else:
+                o = op["o"]
+                other, om = self.impl[o], self.model[o]
+                if name in UPD_BIN and o == t:
+                    self.count("skipped:aliasing")
+                    return "skipped"
             ks, ko = m.keys(), om.keys()
             if ks & ko and (ks - ko or ko - ks):
                 self.boundary += 1
@@ -310,6 +330,9 @@ class World:
                 self._call(lambda: getattr(cs, name)(other), ("ok", getattr(m, name)(om)), name, truthy=True)
             else:
                 adm = getattr(m, name.replace("_update", ""))(om)
+                for k in adm:
+                    if k in extra_vals:  # any of the argument's entries for that path may be the survivor
+                        adm[k] = list(adm[k]) + extra_vals[k]
                 if name in PURE_BIN:
                     res = self._call(lambda: getattr(cs, name)(other), None, name)
                 else:
@@ -401,8 +424,8 @@ class World:
         form = op["olist"]["form"]
         if form == "list_entries":
             other = list(src)
-        elif form == "iter_entries":
-            other = iter(list(src))
+        elif form in ("iter_entries", "tuple_entries"):
+            other = iter(list(src)) if form == "iter_entries" else tuple(src)
         else:
             other = [o.location for o in src]
         if self.ctx is not None:
@@ -481,6 +504,28 @@ def pick_key(rng, world, t, prefix):
     return gen_key(rng, prefix)
 
 
+def gen_iter_arg(rng, g, world, t, prefix):
+    """Entries for an iterator argument: keys of the target / another set / fresh ones, every entry a new object in a
+    random spelling; in most cases some path occurs twice (plain duplicate or a second spelling, same or other type)."""
+    keys = []
+    for src in (t, rng.randrange(NSETS)):
+        ks = sorted(world.model[src].d)
+        if ks:
+            keys.extend(rng.sample(ks, rng.randrange(0, min(len(ks), 4) + 1)))
+    for _ in range(rng.choice([0, 0, 1, 2])):
+        keys.append(gen_key(rng, prefix))
+    es = [g.entry(key=k) for k in keys]
+    if es and rng.random() < 0.7:
+        for _ in range(rng.choice([1, 1, 2])):
+            e = rng.choice(es)
+            if rng.random() < 0.3:
+                es.append(dict(e))  # the very same entry description twice
+            else:
+                es.append(g.entry(key=ref.norm(e["p"]), typ=e["t"] if rng.random() < 0.6 else None))
+    rng.shuffle(es)
+    return es
+
+
 def gen_op(rng, g, world, prefix):
     t = rng.randrange(NSETS)
     mut = [i for i in range(NSETS) if world.is_mutable(i)]
@@ -523,7 +568,12 @@ def gen_op(rng, g, world, prefix):
         others = [i for i in range(NSETS) if i != t]
         if rng.random() < 0.06:
             return {"op": name, "t": t,
-                    "olist": {"i": rng.choice(others), "form": rng.choice(["list_entries", "iter_entries", "list_paths"])}}
+                    "olist": {"i": rng.choice(others), "form": rng.choice(["list_entries", "tuple_entries", "list_paths"])}}
+        if rng.random() < 0.18:
+            op = {"op": name, "t": t, "oiter": {"form": rng.choice(["iter", "gen"]), "es": gen_iter_arg(rng, g, world, t, prefix)}}
+            if name in PURE_BIN:
+                op["store"] = rng.choice([None, 0, 1, 2])
+            return op
         o = rng.choice(others) if (name in UPD_BIN or rng.random() < 0.93) else t
         op = {"op": name, "t": t, "o": o}
         if name in PURE_BIN:
@@ -585,7 +635,7 @@ def run_history(sets_spec, ops, ctx=None):
 
 def signature(fail):
     op = fail["op"]
-    a = op.get("arg", {}).get("k") or ("set" if "o" in op else "")
+    a = op.get("arg", {}).get("k") or ("set" if "o" in op else "iterator" if "oiter" in op else "")
     return (fail["kind"], op["op"], a)
 
 
@@ -629,7 +679,7 @@ def shrink(sets_spec, ops, fail, budget=120):
 
 def make_witness(sets_spec, ops, fail):
     op = fail["op"]
-    a = op.get("arg", {}).get("k") or ("set" if "o" in op else "")
+    a = op.get("arg", {}).get("k") or ("set" if "o" in op else "iterator" if "oiter" in op else "")
     return {"sets": sets_spec, "ops": ops[: fail["step"] + 1], "step": fail["step"], "failed_op": op,
             "detail": fail["detail"], "kind": fail["kind"], "rule": op["op"] + ((":" + a) if a else "")}
 
